@@ -206,8 +206,11 @@ func runC02(r *Run) {
 		if ok {
 			for _, c := range v.CallsNamed("DeleteStakerForOperator") {
 				for _, f := range v.factsAt(c, false) {
-					if o := v.outcome(f); o != nil {
+					if v.isSuccessOutcome(f) {
 						continue // zero flag of UpdateDelegationState, err == nil of earlier calls
+					}
+					if ifs, isIf := f.At.(*ast.IfStmt); isIf && v.blockEndKind(ifs.Body) == "return" && !within(c, ifs.Body) {
+						continue // an earlier rejection (the whole operation fails)
 					}
 					ok = false
 					_ = f
